@@ -27,6 +27,17 @@
 //!                     or moving at the idle point; from the idle point on identical (tick-relative)
 //!                     to a fresh `Kanata::new` of the new file on the same continuation.
 //!
+//!  * progress       : a pending request is applied at the latest once `bound` consecutive loop
+//!                     iterations passed without input event, without output, without an OS key
+//!                     down and with nothing physically held but keys that hold a silent custom
+//!                     action (the reload key itself, a mouse-button key, an arbitrary-code key);
+//!                     bound = 1000 (the idle second) + the longest duration the active
+//!                     configuration names (every timer of its own has run out by then) + 100.
+//!                     Class `no-reload-after-one-idle-second:<what the OS has down>`. Without this
+//!                     clause a reload that only comes when the held key is finally released
+//!                     satisfies every other clause, so a one-idle-second fallback that never fires
+//!                     for held custom actions went unnoticed.
+//!
 //! A case is one reload episode (state before the request, request(s), what happens while the request
 //! is pending, idle point, continuation) or a session of 2-3 episodes on the same running instance:
 //! the continuation of one episode is the typing before the next request, the files stay as they
@@ -45,6 +56,15 @@
 //! directed pieces (chords pressed together, leader + sequence, virtual keys by name, dynamic-macro
 //! record / replay, staggered accelerated mouse keys) so that a table or option that survives the
 //! reload shows up in the comparison with the fresh instance.
+//!
+//! Held custom actions and the fallback: the scenario "mouse-button-held" holds one of mlft / mrgt /
+//! mmid / mfwd / mbck / (arbitrary-code n); in half of the successful cases of that scenario the key
+//! stays held, with no further input (or after one key tapped early in the wait), for bound + 30 /
+//! 200 / 700 iterations after the request; the reload key itself is held that long in a tenth of the
+//! other successful single-episode cases, in half of the sessions' first episodes and later episodes
+//! that hold it for more than a second. Every loop iteration of the wait goes through the real
+//! `can_block_update_idle_waiting` + `handle_time_ticks`, which is the only place where kanata's
+//! idle counter is kept. (Stream "progress"; the rest of a case is what it was.)
 //!
 //! OS key repeats: the per-layer table that decides which OS key a `KeyValue::Repeat` input event is
 //! forwarded as (`key_outputs`, one entry per layer) is state outside the layout as well, and
@@ -835,6 +855,16 @@ struct Episode {
     cinfo: ContInfo,
     /// what kind of typing `cont` is ("mixed" = build_cont)
     typing: &'static str,
+    /// bound of the progress clause for this episode: 1000 + the longest duration the configuration
+    /// that is active when the request is made names + 100 (see `progress_bound`)
+    bound: u32,
+    /// a custom action that the plan keeps physically held, with no further input, for longer than
+    /// `bound` iterations while the request is pending ("mouse-button", "arbitrary-code",
+    /// "reload-key"); None: no such wait in this episode
+    long_hold: Option<&'static str>,
+    /// physical key of `pre` that holds nothing but a silent custom action (mouse button,
+    /// arbitrary key code)
+    silent_key: Option<u16>,
 }
 
 struct Plan {
@@ -869,6 +899,67 @@ fn step_idx(kind: usize, cur: usize, n: usize, num_arg: usize, file_arg: usize) 
     }
 }
 
+/// The longest duration (in ms = loop iterations) that a configuration names anywhere: every timer
+/// that can be running silently when a request is made (pending tap-hold / tap-dance, one-shot,
+/// caps-word, hold-for-duration, a started key sequence, zippychord deadlines, macro delays, ...)
+/// has run out that long after the last input. Taken from the specification, not from kanata: every
+/// number in an action, a virtual key, a defcfg option or a defzippy option, plus the documented
+/// defaults of the time-outs that need not be written down (sequence-timeout 1000, zippychord 500).
+fn longest_duration(s: &CfgSpec) -> u32 {
+    let mut m: u32 = 0;
+    let mut leader = false;
+    let mut scan = |t: &str| {
+        if t.contains("sldr") || t.contains("(sequence") {
+            leader = true;
+        }
+        let mut cur: u64 = 0;
+        let mut any = false;
+        for ch in t.chars().chain(std::iter::once(' ')) {
+            if let Some(d) = ch.to_digit(10) {
+                cur = (cur * 10 + d as u64).min(1_000_000);
+                any = true;
+            } else {
+                if any && cur <= 20_000 {
+                    m = m.max(cur as u32);
+                }
+                cur = 0;
+                any = false;
+            }
+        }
+    };
+    for a in s.acts0.iter().chain(s.acts1.iter()) {
+        scan(a);
+    }
+    for (_, acts) in &s.extra {
+        for a in acts {
+            scan(a);
+        }
+    }
+    for (_, a) in &s.vkeys {
+        scan(a);
+    }
+    for (_, v) in &s.opts {
+        scan(v);
+    }
+    if let Some(z) = &s.zippy {
+        scan(&z.opts);
+        m = m.max(500);
+    }
+    // (a leader key or sequence-always-on without a written time-out uses the default)
+    if (leader || s.opt("sequence-always-on") == "yes") && s.opt("sequence-timeout") == "default" {
+        m = m.max(1000);
+    }
+    m
+}
+
+/// Bound of the progress clause: a request that is pending must have been applied once this many
+/// consecutive loop iterations passed without input event, without output and without an OS key
+/// down (one idle second = 1000 iterations, counted by kanata only once its own timers have run
+/// out, + 100 iterations of slack).
+fn progress_bound(s: &CfgSpec) -> u32 {
+    1000 + longest_duration(s) + 100
+}
+
 /// number of single-episode cases; the indices above them are sessions
 fn n_classic(ctx: &Ctx) -> u64 {
     ctx.tier.sel(2_400, 40_000)
@@ -895,6 +986,9 @@ fn make_plan_inner(ctx: &Ctx, idx: u64, sys: usize, session: bool) -> Plan {
     // ... and so does the OS-repeat dimension (number of layers per file, the layer LAYER_KEY holds,
     // the Repeat events of the continuations)
     let mut xr = Rng::for_case(ctx.seed, "C15", "repeat", idx);
+    // ... and the progress dimension (which custom action is held, input-free waits beyond the bound
+    // of the progress clause)
+    let mut pr = Rng::for_case(ctx.seed, "C15", "progress", idx);
     let loop_order = if session { srng.chance(3, 4) } else { srng.chance(1, 3) };
     // systematic part: scenario x request kind x outcome cycle with the index, details are random
     let scenario = SCENARIOS[sys % SCENARIOS.len()];
@@ -936,6 +1030,8 @@ fn make_plan_inner(ctx: &Ctx, idx: u64, sys: usize, session: bool) -> Plan {
     let mut pre: Vec<Ev> = vec![];
     let mut held: Vec<&str> = vec![];
     let mut wait_before_release = *rng.pick(&[0u32, 1, 5, 30, 120]);
+    // kind of the silent custom action that the scenario holds, if any
+    let mut held_custom: Option<&'static str> = None;
     let tapk = |pre: &mut Vec<Ev>, key: &str, hold: u32, after: u32| {
         pre.push(Ev::P(osc(key)));
         pre.push(Ev::T(hold));
@@ -965,7 +1061,15 @@ fn make_plan_inner(ctx: &Ctx, idx: u64, sys: usize, session: bool) -> Plan {
             tapk(&mut pre, "a", 5, *rng.pick(&[2u32, 30, 70, 110]));
         }
         "mouse-button-held" => {
-            old.acts0[0] = "mlft".into();
+            // a custom action that is silent while it is held: a mouse button (5 of 8, mostly the
+            // left one) or an arbitrary key code (3 of 8)
+            let (act, kind): (String, &'static str) = match pr.usize(8) {
+                0..=2 => ("mlft".into(), "mouse-button"),
+                3 | 4 => (pr.pick(&["mrgt", "mmid", "mfwd", "mbck"]).to_string(), "mouse-button"),
+                _ => (format!("(arbitrary-code {})", pr.pick(&[700u32, 249, 511])), "arbitrary-code"),
+            };
+            old.acts0[0] = act;
+            held_custom = Some(kind);
             pre.extend([Ev::P(osc("a")), Ev::T(20)]);
             held.push("a");
         }
@@ -1093,6 +1197,32 @@ fn make_plan_inner(ctx: &Ctx, idx: u64, sys: usize, session: bool) -> Plan {
     for sp in specs.iter_mut() {
         add_layers(&mut xr, sp, NEW_LETTERS, [2, 3, 3]);
     }
+    // progress dimension: the bound of the progress clause for the first episode comes from the
+    // old configuration as it is now; in successful cases a silent custom action (what the scenario
+    // holds, or the reload key itself) is kept held for longer than that with no further input
+    let bound0 = progress_bound(&old);
+    let mut long_hold: Option<&'static str> = None;
+    let mut long_wait = false;
+    if success {
+        let extra = *pr.pick(&[30u32, 200, 700]);
+        if let (Some(kind), true) = (held_custom, pr.chance(1, 2)) {
+            wait_before_release = bound0 + extra;
+            long_wait = true;
+            long_hold = Some(kind);
+        } else if reqs.len() == 1 && (if reqs[0].hold > 1000 { pr.chance(1, 2) } else { !session && pr.chance(1, 10) }) {
+            // the reload key itself (nothing is down in the output, the held reload action defers
+            // the reload until the one-idle-second fallback applies it)
+            if reqs[0].hold <= 1000 {
+                reqs[0].mid = None;
+            }
+            let lead = match reqs[0].mid {
+                Some((at, _)) => at + 3,
+                None => 0,
+            };
+            reqs[0].hold = lead + bound0 + extra;
+            long_hold = Some("reload-key");
+        }
+    }
     let mut contents = vec![Content::Valid; nfiles];
     if !success {
         // every file a request of this case can land on is broken in the same way
@@ -1110,7 +1240,8 @@ fn make_plan_inner(ctx: &Ctx, idx: u64, sys: usize, session: bool) -> Plan {
             // with something held that defers the reload: it is typed on the old configuration)
             let at = 100 + srng.usize(800) as u32;
             let x = osc(*srng.pick(&free[..]));
-            post.extend([Ev::T(at), Ev::P(x), Ev::T(3), Ev::R(x), Ev::T(wait_before_release - at - 3)]);
+            let tail = if long_wait { wait_before_release } else { wait_before_release - at - 3 };
+            post.extend([Ev::T(at), Ev::P(x), Ev::T(3), Ev::R(x), Ev::T(tail)]);
         } else {
             post.push(Ev::T(wait_before_release));
         }
@@ -1126,7 +1257,7 @@ fn make_plan_inner(ctx: &Ctx, idx: u64, sys: usize, session: bool) -> Plan {
     }
     let (mut cont, mut cinfo) = build_cont(&mut rng, &metas[target], true);
     add_repeats(&mut xr, &mut cont, &mut cinfo, &metas[target], true);
-    let mut eps = vec![Episode { scenario, pre, reqs, idx_after, post, cont, cinfo, typing: "mixed" }];
+    let mut eps = vec![Episode { scenario, pre, reqs, idx_after, post, cont, cinfo, typing: "mixed", bound: bound0, long_hold, silent_key: held_custom.map(|_| osc("a")) }];
     if session {
         let more = 1 + srng.usize(2);
         let mut cur = target;
@@ -1142,6 +1273,16 @@ fn make_plan_inner(ctx: &Ctx, idx: u64, sys: usize, session: bool) -> Plan {
                 prev.cinfo = cinfo;
             }
             let mut ep = later_episode(&mut srng, &metas[cur]);
+            ep.bound = progress_bound(&specs[cur]);
+            if ep.reqs[0].hold > 1000 && pr.chance(1, 2) {
+                // the reload key is held for longer than the bound of the progress clause
+                let lead = match ep.reqs[0].mid {
+                    Some((at, _)) => at + 3,
+                    None => 0,
+                };
+                ep.reqs[0].hold = lead + ep.bound + *pr.pick(&[30u32, 200, 700]);
+                ep.long_hold = Some("reload-key");
+            }
             cur = step_idx(ep.reqs[0].kind, cur, nfiles, num_arg, file_arg);
             ep.idx_after = vec![cur];
             if e + 1 == more {
@@ -1256,7 +1397,7 @@ fn later_episode(rng: &mut Rng, m: &Meta) -> Episode {
             post.push(Ev::T(g));
         }
     }
-    Episode { scenario, pre, reqs: vec![req], idx_after: vec![], post, cont: vec![Ev::T(40)], cinfo: ContInfo::default(), typing: "none" }
+    Episode { scenario, pre, reqs: vec![req], idx_after: vec![], post, cont: vec![Ev::T(40)], cinfo: ContInfo::default(), typing: "none", bound: 0, long_hold: None, silent_key: None }
 }
 
 /// What the continuation contains besides random typing (for the evidence counters).
@@ -1603,6 +1744,103 @@ struct EpObs {
     typed_while_pending: Vec<u64>,
     /// the OS model had a key down when the (first) reload key of the episode was pressed
     os_key_down_at_request: bool,
+    /// progress clause: the longest run of consecutive loop iterations, from the request to the
+    /// first application of the episode (or to the end of the settle phase), without input event,
+    /// without output and without an OS key down
+    max_quiet_unapplied: u64,
+    /// what the OS model had down when that run passed the bound of the episode (None: it never did)
+    down_when_bound_passed: Option<(bool, bool)>,
+    /// length of that run when the first application happened (None: the run could not have gone
+    /// on without the application: an OS key was down or another key physically held)
+    quiet_at_first_app: Option<u64>,
+    /// iterations from the first application to the next input event of the pending phase (None:
+    /// no input event followed before the settle phase)
+    input_free_after_first_app: Option<u64>,
+    /// the OS model had a mouse button / a key code down when the iteration of the first
+    /// application started
+    down_before_first_app: (bool, bool),
+}
+
+/// Bookkeeping of the progress clause while a request is pending (see `EpObs`).
+#[derive(Default)]
+struct Progress {
+    bound: u64,
+    /// physical keys that are down, and those of them that are known to hold nothing but a silent
+    /// custom action (the reload keys, the key of the scenario's custom action)
+    phys_down: Vec<u16>,
+    silent: Vec<u16>,
+    q: u64,
+    max_q: u64,
+    down_when_bound_passed: Option<(bool, bool)>,
+    quiet_at_first_app: Option<u64>,
+    /// when the first application happened no OS key was down and nothing but silent custom-action
+    /// keys was physically held: without the application the quiet run would have gone on
+    judged_at_first_app: bool,
+    /// the OS model had a mouse button / a key code down when the applying iteration started
+    down_before_first_app: (bool, bool),
+    t_first_app: u64,
+    input_free_after_first_app: Option<u64>,
+}
+
+impl Progress {
+    /// Run one step of the history and account for it.
+    fn step(&mut self, w: &mut Watch, rd: &mut Rd, e: &Ev) {
+        match e {
+            Ev::T(n) => {
+                for _ in 0..*n {
+                    self.iteration(w, rd, None);
+                }
+            }
+            other if rd.is_iteration_event(other) => self.iteration(w, rd, Some(other)),
+            other => {
+                self.input(rd, other);
+                rd.apply(other);
+                self.q = 0;
+            }
+        }
+    }
+    fn input(&mut self, rd: &Rd, e: &Ev) {
+        match e {
+            Ev::P(c) => {
+                if !self.phys_down.contains(c) {
+                    self.phys_down.push(*c);
+                }
+            }
+            Ev::R(c) => self.phys_down.retain(|x| x != c),
+            _ => {}
+        }
+        if self.quiet_at_first_app.is_some() && self.input_free_after_first_app.is_none() {
+            self.input_free_after_first_app = Some(rd.sim.now.saturating_sub(self.t_first_app));
+        }
+    }
+    fn iteration(&mut self, w: &mut Watch, rd: &mut Rd, ev: Option<&Ev>) {
+        if let Some(e) = ev {
+            self.input(rd, e);
+        }
+        let unapplied = self.quiet_at_first_app.is_none();
+        if unapplied {
+            self.max_q = self.max_q.max(self.q);
+            if self.q > self.bound && self.down_when_bound_passed.is_none() {
+                self.down_when_bound_passed = Some((!rd.sim.os.btns_down.is_empty(), !rd.sim.os.codes_down.is_empty()));
+            }
+        }
+        let n0 = rd.sim.trace.len();
+        let a0 = w.applied.len();
+        let judged = ev.is_none() && rd.sim.os.keys_down.is_empty() && self.phys_down.iter().all(|c| self.silent.contains(c));
+        let down_before = (!rd.sim.os.btns_down.is_empty(), !rd.sim.os.codes_down.is_empty());
+        w.iteration(rd, ev);
+        if unapplied && w.applied.len() > a0 {
+            self.quiet_at_first_app = Some(self.q);
+            self.down_before_first_app = down_before;
+            self.judged_at_first_app = judged;
+            self.t_first_app = rd.sim.now;
+        }
+        if ev.is_some() || rd.sim.trace.len() > n0 || !rd.sim.os.keys_down.is_empty() || self.phys_down.iter().any(|c| !self.silent.contains(c)) {
+            self.q = 0;
+        } else {
+            self.q += 1;
+        }
+    }
 }
 
 struct Obs {
@@ -1623,6 +1861,8 @@ struct AppliedInfo {
     /// keys the OS model has down at the end of the iteration that sent ConfigFileReload
     os_keys_down: Vec<String>,
     os_btns_down: Vec<String>,
+    /// arbitrary key codes the OS model has pressed at that point
+    os_codes_down: Vec<String>,
     /// ms from the last input / output (see `Rd::last_activity`) to the start of the applying
     /// iteration (0: the reload was applied in the very iteration that received an input event)
     idle_for: u64,
@@ -1674,7 +1914,8 @@ impl Watch {
                 let layer_name_after = rd.sim.k.layer_info.get(layer_after).map(|l| l.name.clone()).unwrap_or_default();
                 let seq_pending = !rd.sim.k.sequence_state.is_inactive();
                 let os_btns_down: Vec<String> = rd.sim.os.btns_down.iter().cloned().collect();
-                self.applied.push(AppliedInfo { tick: rd.sim.now, file: f.clone(), os_keys_down: after, os_btns_down, idle_for, layer_after, layer_name_after, seq_pending, idle_counter: rd.sim.k.ticks_since_idle });
+                let os_codes_down: Vec<String> = rd.sim.os.codes_down.iter().cloned().collect();
+                self.applied.push(AppliedInfo { tick: rd.sim.now, file: f.clone(), os_keys_down: after, os_btns_down, os_codes_down, idle_for, layer_after, layer_name_after, seq_pending, idle_counter: rd.sim.k.ticks_since_idle });
             }
             self.seen_notes += 1;
         }
@@ -1753,11 +1994,16 @@ fn run_reload(p: &Plan, paths: &Paths, noop: bool) -> Result<Result<Obs, String>
             pending_phase.extend(req_events(r));
         }
         pending_phase.extend(ep.post.iter().cloned());
+        let mut silent: Vec<u16> = RELOAD_KEYS.iter().map(|k| osc(k)).collect();
+        silent.extend(ep.silent_key);
+        let mut phys_down: Vec<u16> = crate::gen::hist::still_down(&ep.pre).into_iter().collect();
+        phys_down.sort();
+        let mut prog = Progress { bound: ep.bound as u64, phys_down, silent, ..Default::default() };
         for e in &pending_phase {
             if matches!(e, Ev::P(c) if act_codes.contains(c)) {
                 typed_while_pending.push(rd.sim.now);
             }
-            w.step(&mut rd, e);
+            prog.step(&mut w, &mut rd, e);
         }
         // settle: reload decided, kanata may block, everything up, quiet for 40 ticks
         let mut quiet = 0u64;
@@ -1765,7 +2011,7 @@ fn run_reload(p: &Plan, paths: &Paths, noop: bool) -> Result<Result<Obs, String>
         let t0 = rd.sim.now;
         while rd.sim.now - t0 < 6000 {
             let n0 = rd.sim.trace.len();
-            w.step(&mut rd, &Ev::T(1));
+            prog.step(&mut w, &mut rd, &Ev::T(1));
             if rd.sim.trace.len() > n0 {
                 quiet = 0;
             } else {
@@ -1788,6 +2034,8 @@ fn run_reload(p: &Plan, paths: &Paths, noop: bool) -> Result<Result<Obs, String>
                 "button-down"
             } else if !rd.sim.os.keys_down.is_empty() {
                 "key-down"
+            } else if !rd.sim.os.codes_down.is_empty() {
+                "code-down"
             } else if rd.sim.k.verif_live_reload_requested() {
                 "reload-still-pending"
             } else if quiet < 40 {
@@ -1805,7 +2053,7 @@ fn run_reload(p: &Plan, paths: &Paths, noop: bool) -> Result<Result<Obs, String>
         }
         let backed: Vec<String> = rd.sim.k.layout.b().keycodes().map(|k| format!("{k:?}")).collect();
         let stuck_keys_backed_by_layout = rd.sim.os.keys_down.iter().all(|k| backed.contains(k));
-        eps.push(EpObs { t_req, applied: std::mem::take(&mut w.applied), t_idle, t_end: rd.sim.now, settle_problem, stuck_keys_backed_by_layout, stale_override_state, typed_while_pending, os_key_down_at_request });
+        eps.push(EpObs { t_req, applied: std::mem::take(&mut w.applied), t_idle, t_end: rd.sim.now, settle_problem, stuck_keys_backed_by_layout, stale_override_state, typed_while_pending, os_key_down_at_request, max_quiet_unapplied: prog.max_q.max(if prog.quiet_at_first_app.is_none() { prog.q } else { 0 }), down_when_bound_passed: prog.down_when_bound_passed.or(Some((!rd.sim.os.btns_down.is_empty(), !rd.sim.os.codes_down.is_empty()))), quiet_at_first_app: prog.quiet_at_first_app.filter(|_| prog.judged_at_first_app), input_free_after_first_app: prog.input_free_after_first_app, down_before_first_app: prog.down_before_first_app });
         if t_idle.is_none() {
             // the session ends here
             break;
@@ -1928,6 +2176,8 @@ fn describe_plan(p: &Plan, paths: &Paths) -> Value {
         "sequences_in_old_and_new": p.smode,
         "key_events_delivered": if p.loop_order { "in the order of the processing loop: can_block_update_idle_waiting, handle_input_event, handle_time_ticks (every key event takes one tick)" } else { "queued between two ticks (handle_input_event only)" },
         "pre_history": render_hist(&e0.pre),
+        "progress_bound_of_each_episode": p.eps.iter().map(|e| e.bound).collect::<Vec<_>>(),
+        "custom_action_held_beyond_the_bound_in_each_episode": p.eps.iter().map(|e| e.long_hold).collect::<Vec<_>>(),
         "requests": e0.reqs.iter().map(render_req).collect::<Vec<_>>(),
         "file_index_after_each_request": e0.idx_after,
         "after_request": render_hist(&e0.post),
@@ -2070,11 +2320,11 @@ fn judge_plan(p: &Plan, paths: &Paths, out: &mut CaseOut, desc: &Value, verbose:
         out.inc(&format!("session_episodes_planned:{}", p.eps.len()));
         out.tag(format!(
             "session|{}|{}",
-            p.eps.iter().map(|e| format!("{}+{}{}", e.scenario, REQ_KINDS[e.reqs[0].kind], if e.reqs[0].hold > 1000 { "+held-1s" } else { "" })).collect::<Vec<_>>().join(">"),
+            p.eps.iter().map(|e| format!("{}+{}{}{}", e.scenario, REQ_KINDS[e.reqs[0].kind], if e.reqs[0].hold > 1000 { "+held-1s" } else { "" }, e.long_hold.map(|k| format!("+{k}-beyond-bound")).unwrap_or_default())).collect::<Vec<_>>().join(">"),
             p.eps.iter().map(|e| e.typing).collect::<Vec<_>>().join(">"),
         ));
     } else {
-        out.tag(format!("ok|{}|{}|n{}|applied{}", e0.scenario, kind_names.join("+"), p.nfiles, a0.applied.len().min(3)));
+        out.tag(format!("ok|{}|{}|n{}|applied{}{}", e0.scenario, kind_names.join("+"), p.nfiles, a0.applied.len().min(3), e0.long_hold.map(|k| format!("|{k}-beyond-bound")).unwrap_or_default()));
     }
     if a.not_quiescent_before_later_request {
         out.inc("sessions_ended_early:typing_left_something_pressed");
@@ -2123,6 +2373,50 @@ fn judge_episode(p: &Plan, paths: &Paths, a: &Obs, ei: usize, active: Option<usi
     }
     if ep.reqs.iter().any(|r| r.hold > 1000) {
         out.inc("requests_with_reload_key_held_over_1s");
+    }
+    // (0) progress: a pending request is applied at the latest once `bound` consecutive iterations
+    // passed without input event, without output and without an OS key down (whatever custom action
+    // is still physically held)
+    out.max("progress:longest_quiet_run_with_request_pending", eo.max_quiet_unapplied);
+    if eo.max_quiet_unapplied > ep.bound as u64 {
+        let (btn, code) = eo.down_when_bound_passed.unwrap_or((false, false));
+        let what = if btn {
+            "mouse-button-down"
+        } else if code {
+            "key-code-down"
+        } else {
+            "nothing-down"
+        };
+        out.violate(
+            sg(&format!("no-reload-after-one-idle-second:{what}")),
+            format!(
+                "the request was pending for {} consecutive loop iterations without any input event, without any output and with no OS key down (OS state: {what}), and the reload was not applied; the one-idle-second fallback has to apply it within {} iterations (1000 + {} = the longest duration the active configuration names + 100)",
+                eo.max_quiet_unapplied,
+                ep.bound,
+                ep.bound.saturating_sub(1100)
+            ),
+            witness(json!({"episode": ei, "applied": format!("{:?}", eo.applied), "longest_quiet_run_with_request_pending": eo.max_quiet_unapplied, "bound": ep.bound, "trace": whole(&a.trace), "notifications": notes_json(&a.notes)}), json!("ConfigFileReload after one idle second although a custom action is still held")),
+        );
+    }
+    if let (Some(q), Some(kind)) = (eo.quiet_at_first_app, ep.long_hold) {
+        // the clause had something to say: had the reload not been applied when it was, the run
+        // without input / output / OS key down would have outlasted the bound before the next
+        // input event of the history (the release of what is held)
+        if let Some(more) = eo.input_free_after_first_app {
+            if q + more > ep.bound as u64 {
+                out.inc("progress:reloads_that_had_to_come_while_a_custom_action_stays_held");
+                out.inc(&format!("progress:reloads_that_had_to_come_while_held:{kind}"));
+                if later {
+                    out.inc("progress:session_later_reloads_that_had_to_come_while_the_reload_key_stays_held");
+                }
+                if eo.down_before_first_app.0 {
+                    out.inc("progress:reloads_that_had_to_come_with_mouse_button_down");
+                }
+                if eo.down_before_first_app.1 {
+                    out.inc("progress:reloads_that_had_to_come_with_key_code_down");
+                }
+            }
+        }
     }
     let planned_target = *ep.idx_after.last().unwrap_or(&0);
     let target_path = paths.files[planned_target].to_string_lossy().to_string();
@@ -2266,6 +2560,15 @@ fn judge_episode(p: &Plan, paths: &Paths, a: &Obs, ei: usize, active: Option<usi
                     "stuck-after-reload:button:held-through-one-idle-second-fallback".to_string()
                 } else {
                     "stuck-after-reload:button".to_string()
+                }
+            }
+            ("code-down", _) => {
+                // like the button: the key code was pressed before the reload, which was applied by
+                // the one-idle-second fallback
+                if eo.applied.last().map(|x| !x.os_codes_down.is_empty() && x.idle_for > 1000).unwrap_or(false) {
+                    "stuck-after-reload:key-code:held-through-one-idle-second-fallback".to_string()
+                } else {
+                    "stuck-after-reload:key-code".to_string()
                 }
             }
             ("key-down", _) => {
@@ -2509,7 +2812,7 @@ impl Check for C15Check {
         out
     }
     fn rule(&self) -> String {
-        "case = (pre-state scenario, reload request kind, outcome) taken systematically from the index: 16 scenarios (idle, key held, pending tap-hold, active one-shot, running macro, held mouse button, held mwheel, held movemouse, caps-word, pending hold-for-duration, layer held, layer switched, unmod key held > 1 s (the 1000-idle-tick fallback), plain key held > 1 s, two keys held, random typing) x 5 request kinds (lrld, lrld-next, lrld-prev, lrld-num, lrld-file) x {valid new file, broken new file} x 6 fault kinds (syntax error, semantic error, missing file, directory, non-UTF-8, valid text naming a malformed zippychord dictionary), over 1-3 real files; every fifth case taps a second request back-to-back. Old and new configurations are random over plain keys, tap-hold, one-shot, macro, mouse button / wheel / movement (plain and accelerated), caps-word, hold-for-duration, layers, chords, multi, tap-dance, unmod, fork, switch with key-timing, overrides. Everything that a reload has to replace OUTSIDE the layout is varied independently between the old configuration and every new file: zippychord (old file with defzippy -> new without, new with another dictionary, new naming the same dictionary file whose content was edited, old without -> new with; dictionaries are real files next to the configuration, contain the chords of the case expressed in the letters the reloaded file types, follow-up chords and own chords; deadline / idle-reactivate-time / smart-space options vary), defseq tables with a leader key (sldr or (sequence t mode)) in old-only / new-only / both (a third of them with sequence-always-on, whose time-out and input mode are the Kanata-level fields), the defvirtualkeys list (2-4 keys, random order = random index behind each name, random actions), dynamic-macro record / play keys (new files only) and the defcfg options sequence-timeout, sequence-input-mode, sequence-backtrack-modcancel, sequence-always-on, movemouse-smooth-diagonals, movemouse-inherit-accel-state, dynamic-macro-max-presses, dynamic-macro-replay-delay-behaviour, override-release-on-activation, concurrent-tap-hold, rapid-event-delay. After the request(s) the held keys are released with random gaps, the run settles, then a continuation of 2-5 pieces is typed: random typing, the chords of the case pressed together (half of the cases start with one, so zippychord is surely enabled), leader + key sequence (some defined as (lsft k1 k2) and typed with lsft held, some broken off), two accelerated movement keys pressed one after the other, record / stop / replay of a dynamic macro, virtual keys pressed / tapped / toggled by name as the TCP server does, movement keys held together, random keys pressed together. Failed reloads are compared, output by output and tick by tick, with a twin run whose reload keys are inert (the dictionary file on disk changes in both); successful ones with a fresh Kanata::new of the new file from the idle point on, plus the deferral / notification / first-layer / nothing-pressed oracles. SESSIONS (the indices above the single-episode cases; 640 quick / 9600 thorough): 2-3 reload episodes on one running instance, all files valid. The first episode is one of the 16 scenarios x 5 request kinds (one request; in 2/5 the reload key itself is held 1050-1450 ticks, so that the held custom action defers the reload until the one-idle-second fallback applies it, in a third of those another key is tapped during the hold; in 1/4 whatever the scenario holds is held 1100 / 1400 ticks after the request, with a key tapped in the middle of that wait when the scenario surely defers the reload). Its continuation is the typing before the next request: nothing, plain letters only (taps and overlapping holds of keys that type a plain letter in the file just installed, i.e. nothing kanata has to wait for), or the mixed continuation described above. Every later episode makes its pre-state on the file the previous one installed (idle, one or two plain-letter keys held, the lsft key held, random typing cut off anywhere), taps a random request kind (a third with the reload key held for more than a second), waits (a fifth for 1100 / 1400 ticks, possibly with a key tapped in the middle), releases what is held with random gaps, settles, and types its own continuation; the last one types the mixed continuation. Every episode is judged on its own: exactly one ConfigFileReload naming the file the request selects relative to the file active by then, not applied with an OS key down unless more than 1000 iterations passed since the last input / output, notification pair, first layer, only releases until the idle point, everything up at the idle point, continuation identical to a fresh instance of the file that episode installed. OS KEY REPEATS are a dimension of every continuation (single-episode cases, failed-reload cases and every episode of a session; a stream of their own, the rest of a case is what it was): every configuration (old and every file) has 2, 3 or 4 layers (old: 2/3/4 with weights 2:1:1, files 2:3:3, random actions on the additional layers) and maps the extra physical key j on its first layer to (layer-while-held L), L = the last layer half of the time, else any non-first layer; 3 of 5 mixed continuations get a directed piece at their start or end: [j down] key down (2 of 3 a key that types a plain letter in the installed file), [j down], 1-4 Repeat events for the key 1-33 ticks apart, a third with a second key held and repeated plus a stray repeat of the first, a quarter of the layer-held ones release j first and repeat once more, key up, a fifth with a Repeat after the release, j up; and 2 of 3 of all continuations get 1-3 Repeat events inside a quarter of the waits during which a key is physically held (4 of 5 for the key pressed last). Reloaded and fresh instance receive the same events; forwarded repeats are outputs of the compared traces (kind repeat, stamped with the tick at which the event arrived). KEY-EVENT DELIVERY is a dimension of every case: a third of the single-episode cases and three quarters of the sessions deliver every key event as a loop iteration of its own in the loop's order (can_block_update_idle_waiting, handle_input_event, handle_time_ticks), the others queue key events between two iterations. Non-trivial = case in which the request was made on an accepted old configuration; distinct = (outcome, scenario, request kinds, fault kind, number of files, number of reloads applied), for sessions (per episode: scenario, request kind, reload key held > 1 s; kind of typing between).".into()
+        "case = (pre-state scenario, reload request kind, outcome) taken systematically from the index: 16 scenarios (idle, key held, pending tap-hold, active one-shot, running macro, held mouse button, held mwheel, held movemouse, caps-word, pending hold-for-duration, layer held, layer switched, unmod key held > 1 s (the 1000-idle-tick fallback), plain key held > 1 s, two keys held, random typing) x 5 request kinds (lrld, lrld-next, lrld-prev, lrld-num, lrld-file) x {valid new file, broken new file} x 6 fault kinds (syntax error, semantic error, missing file, directory, non-UTF-8, valid text naming a malformed zippychord dictionary), over 1-3 real files; every fifth case taps a second request back-to-back. Old and new configurations are random over plain keys, tap-hold, one-shot, macro, mouse button / wheel / movement (plain and accelerated), caps-word, hold-for-duration, layers, chords, multi, tap-dance, unmod, fork, switch with key-timing, overrides. Everything that a reload has to replace OUTSIDE the layout is varied independently between the old configuration and every new file: zippychord (old file with defzippy -> new without, new with another dictionary, new naming the same dictionary file whose content was edited, old without -> new with; dictionaries are real files next to the configuration, contain the chords of the case expressed in the letters the reloaded file types, follow-up chords and own chords; deadline / idle-reactivate-time / smart-space options vary), defseq tables with a leader key (sldr or (sequence t mode)) in old-only / new-only / both (a third of them with sequence-always-on, whose time-out and input mode are the Kanata-level fields), the defvirtualkeys list (2-4 keys, random order = random index behind each name, random actions), dynamic-macro record / play keys (new files only) and the defcfg options sequence-timeout, sequence-input-mode, sequence-backtrack-modcancel, sequence-always-on, movemouse-smooth-diagonals, movemouse-inherit-accel-state, dynamic-macro-max-presses, dynamic-macro-replay-delay-behaviour, override-release-on-activation, concurrent-tap-hold, rapid-event-delay. After the request(s) the held keys are released with random gaps, the run settles, then a continuation of 2-5 pieces is typed: random typing, the chords of the case pressed together (half of the cases start with one, so zippychord is surely enabled), leader + key sequence (some defined as (lsft k1 k2) and typed with lsft held, some broken off), two accelerated movement keys pressed one after the other, record / stop / replay of a dynamic macro, virtual keys pressed / tapped / toggled by name as the TCP server does, movement keys held together, random keys pressed together. Failed reloads are compared, output by output and tick by tick, with a twin run whose reload keys are inert (the dictionary file on disk changes in both); successful ones with a fresh Kanata::new of the new file from the idle point on, plus the deferral / notification / first-layer / nothing-pressed oracles. SESSIONS (the indices above the single-episode cases; 640 quick / 9600 thorough): 2-3 reload episodes on one running instance, all files valid. The first episode is one of the 16 scenarios x 5 request kinds (one request; in 2/5 the reload key itself is held 1050-1450 ticks, so that the held custom action defers the reload until the one-idle-second fallback applies it, in a third of those another key is tapped during the hold; in 1/4 whatever the scenario holds is held 1100 / 1400 ticks after the request, with a key tapped in the middle of that wait when the scenario surely defers the reload). Its continuation is the typing before the next request: nothing, plain letters only (taps and overlapping holds of keys that type a plain letter in the file just installed, i.e. nothing kanata has to wait for), or the mixed continuation described above. Every later episode makes its pre-state on the file the previous one installed (idle, one or two plain-letter keys held, the lsft key held, random typing cut off anywhere), taps a random request kind (a third with the reload key held for more than a second), waits (a fifth for 1100 / 1400 ticks, possibly with a key tapped in the middle), releases what is held with random gaps, settles, and types its own continuation; the last one types the mixed continuation. Every episode is judged on its own: exactly one ConfigFileReload naming the file the request selects relative to the file active by then, not applied with an OS key down unless more than 1000 iterations passed since the last input / output, notification pair, first layer, only releases until the idle point, everything up at the idle point, continuation identical to a fresh instance of the file that episode installed. OS KEY REPEATS are a dimension of every continuation (single-episode cases, failed-reload cases and every episode of a session; a stream of their own, the rest of a case is what it was): every configuration (old and every file) has 2, 3 or 4 layers (old: 2/3/4 with weights 2:1:1, files 2:3:3, random actions on the additional layers) and maps the extra physical key j on its first layer to (layer-while-held L), L = the last layer half of the time, else any non-first layer; 3 of 5 mixed continuations get a directed piece at their start or end: [j down] key down (2 of 3 a key that types a plain letter in the installed file), [j down], 1-4 Repeat events for the key 1-33 ticks apart, a third with a second key held and repeated plus a stray repeat of the first, a quarter of the layer-held ones release j first and repeat once more, key up, a fifth with a Repeat after the release, j up; and 2 of 3 of all continuations get 1-3 Repeat events inside a quarter of the waits during which a key is physically held (4 of 5 for the key pressed last). Reloaded and fresh instance receive the same events; forwarded repeats are outputs of the compared traces (kind repeat, stamped with the tick at which the event arrived). KEY-EVENT DELIVERY is a dimension of every case: a third of the single-episode cases and three quarters of the sessions deliver every key event as a loop iteration of its own in the loop's order (can_block_update_idle_waiting, handle_input_event, handle_time_ticks), the others queue key events between two iterations. HELD CUSTOM ACTIONS AND THE ONE-IDLE-SECOND FALLBACK (stream of its own): the scenario 'held mouse button' holds mlft (3 of 8), mrgt / mmid / mfwd / mbck (2 of 8) or (arbitrary-code 700 / 249 / 511) (3 of 8); in half of its successful cases the key stays held for bound + 30 / 200 / 700 iterations after the request with no further input (sessions: sometimes one key tapped early in that wait, the full wait follows it); the reload key itself is held for that long in a tenth of the other successful single-episode cases with one request and in half of the session episodes (first and later ones) that hold it for more than a second; bound = 1000 + the longest duration the configuration that is active at the request names (any number in an action, virtual key, defcfg or defzippy option; 1000 for a leader key without written sequence-timeout, 500 for defzippy) + 100. PROGRESS CLAUSE, judged for every episode of every successful case: between the request and the first application there is no run of more than `bound` consecutive loop iterations without input event, without output, without an OS key down and with nothing physically held except reload keys and the scenario's mouse-button / arbitrary-code key. Non-trivial = case in which the request was made on an accepted old configuration; distinct = (outcome, scenario, request kinds, fault kind, number of files, number of reloads applied), for sessions (per episode: scenario, request kind, reload key held > 1 s; kind of typing between).".into()
     }
     fn assumptions(&self) -> Vec<String> {
         vec![
@@ -2521,6 +2824,8 @@ impl Check for C15Check {
             "a key that is tapped while a request is (expected to be) pending but is in fact typed after the reload was applied (the reload was not deferred because no OS key was down, e.g. an override had released it) was typed on the new file: that episode's output-after-reload and fresh-instance comparisons are skipped (counter episodes_with_key_typed_after_the_application:*), everything else is judged".into(),
             "kanata's own idle counter (pub field ticks_since_idle) is read right after an application only to count which reloads went through the one-idle-second fallback (floors); no oracle uses it".into(),
             "OS key repeats are injected only into continuations (after the idle point that follows a reload, and after a failed reload in both twins), never before or while a request is pending: a Repeat event is an input event, so a key that the OS keeps repeating never lets the one-idle-second fallback start, and the statement does not say whether that is intended. Which key a repeat is forwarded as is not modelled (that is C14); reloaded and fresh instance must agree. Repeat events are also sent for keys that are not the one pressed last and shortly after a release (an OS does not do the former, the latter happens with a queue between OS and kanata); both instances see the same events. The layer that is active when a Repeat arrives is read from the fresh instance (layout.current_layer) only for the evidence counters".into(),
+            "progress clause: 'after one idle second' is judged only for runs of loop iterations in which no input event arrives, kanata writes nothing, the OS model has no key down (mouse buttons and arbitrary key codes may be down) and every physically held key is a reload key or the key of the scenario's silent custom action (mouse button, arbitrary-code). Whether a held output key, or a physically held key whose output kanata swallows (hidden sequence input, zippychord, an unmod key while defzippy tracks its output), still counts as idle is not decided by the statement, and the unchanged tree says it does not (the reload then waits for the release): such runs are not judged. Held wheel / movement keys keep producing output and are never idle. The bound is 1000 iterations plus the longest duration the active configuration names plus 100: kanata counts idle iterations only once its own timers (pending tap-hold / tap-dance, caps-word, hold-for-duration, a started sequence, zippychord deadlines) have run out, and none of them is longer than the longest duration written in the configuration (documented defaults: sequence-timeout 1000, zippychord 500). The durations are read from the generated specification, not from kanata".into(),
+            "the driver runs can_block_update_idle_waiting + handle_time_ticks every virtual millisecond whether or not kanata would block; while a request is pending kanata never blocks (it counts idle iterations), so the iterations of a pending request are exactly the ones the real loop makes".into(),
             "lrld-num is only generated with a number that names an existing file (the guide does not say what an out-of-range number does)".into(),
             "recorded dynamic macros and clipboard slots are kept across reloads on purpose and are not exercised".into(),
             "what the continuation reaches of a feature that differs between old and new file is reported by the evidence counters (zippy_pair:*, old_chord_typed_after_reload_*, sequence_typed_after_reload_*, virtual_key_operated_after_reload_*, reload_changes_option:*); chords, sequences and dictionaries of the old configuration are written in the letters the reloaded file types, so a table that survives the reload shows in the comparison with the fresh instance".into(),
@@ -2597,6 +2902,15 @@ impl Check for C15Check {
             ("reload_changes_option:movemouse-inherit-accel-state", 40),
             ("reload_changes_option:dynamic-macro-max-presses", 40),
             ("reload_changes_option:dynamic-macro-replay-delay-behaviour", 40),
+            // the one-idle-second fallback while a silent custom action stays held beyond the bound
+            // of the progress clause
+            ("progress:reloads_that_had_to_come_while_a_custom_action_stays_held", 120),
+            ("progress:reloads_that_had_to_come_while_held:mouse-button", 15),
+            ("progress:reloads_that_had_to_come_while_held:arbitrary-code", 5),
+            ("progress:reloads_that_had_to_come_while_held:reload-key", 80),
+            ("progress:session_later_reloads_that_had_to_come_while_the_reload_key_stays_held", 20),
+            ("progress:reloads_that_had_to_come_with_mouse_button_down", 15),
+            ("progress:reloads_that_had_to_come_with_key_code_down", 5),
             // OS key repeats after a reload; files with different numbers of layers
             ("os_repeat_events_in_continuations", 6000),
             ("os_repeats_forwarded_by_fresh_instance", 4000),
